@@ -8,6 +8,34 @@
 stamp_t UNREACH___tai_offs(stamp_t t) UNREACH_CONTRACT;
 stamp_t UNREACH___gps_offs(stamp_t t) UNREACH_CONTRACT;
 
+/* ---- leap seconds (C14): the offset for instant t per the built-in table leaps_s/leaps_corr:
+ * it takes the value leaps_corr[k] from just after the k-th listed instant on, and keeps the last value forever */
+#include "leaps.contracts.h"
+static inline stamp_t S_corr(stamp_t t)
+{
+	stamp_t c = leaps_corr[0];
+	for (unsigned k = 1; k < sizeof(leaps_s) / sizeof(*leaps_s); k++) {
+		if (t > (stamp_t)leaps_s[k]) c = leaps_corr[k];
+	}
+	return c;
+}
+static stamp_t __tai_offs(stamp_t t)
+VERIF_CONTRACT(__CPROVER_requires(1) __CPROVER_ensures(__CPROVER_return_value == S_corr(t)) __CPROVER_assigns());
+static stamp_t __gps_offs(stamp_t t)
+VERIF_CONTRACT(__CPROVER_requires(1) __CPROVER_ensures(__CPROVER_return_value == (t < 315964800 ? 0 : S_corr(t) - 19)) __CPROVER_assigns());
+#if !defined VERIF_NATIVE
+/* table lemmas: instants strictly increasing, TAI-UTC never decreases and steps by at most one second */
+static void L_leaptab(void)
+{
+	for (unsigned k = 0; k + 1 < sizeof(leaps_s) / sizeof(*leaps_s); k++) {
+		__CPROVER_assert(leaps_s[k] < leaps_s[k + 1], "L_leaptab: leap instants strictly increasing");
+		__CPROVER_assert(leaps_corr[k + 1] == leaps_corr[k] || leaps_corr[k + 1] == leaps_corr[k] + 1, "L_leaptab: TAI-UTC steps by 0 or 1, never decreases");
+		__CPROVER_assert(k == 0 || (stamp_t)leaps_d[k] * 86400 - 134775LL * 86400 + 86399 == (stamp_t)leaps_s[k] || k + 2 == sizeof(leaps_s) / sizeof(*leaps_s), "L_leaptab: day-count encoding agrees with the epoch encoding (23:59:59 of the leap day)");
+	}
+	__CPROVER_assert(sizeof(leaps_s) / sizeof(*leaps_s) == nleaps_corr && nleaps_corr == sizeof(leaps_corr) / sizeof(*leaps_corr), "L_leaptab: parallel arrays have equal length");
+}
+#endif
+
 /* ---- table accessors: memory-safe under WF for every n */
 static inline stamp_t zif_trans(const struct zif_s z[static 1U], int n)
 VERIF_CONTRACT(__CPROVER_requires(WF_SHAPE(z)) __CPROVER_ensures(RV == TZ_TR(z, n)) __CPROVER_assigns());
